@@ -521,6 +521,19 @@ class RealEncoder(AbstractItemEncoder):
             raise error.PyAsn1Error('Prohibited Real base %s' % b)
 
 
+def _equalsDefault(component, defaultValue):
+    """Compare a bare Python value with the default value object.
+
+    Value objects refuse initializers of a foreign shape (a mapping against
+    a BIT STRING inside a CHOICE) with an error instead of `False`.
+    """
+    try:
+        return component == defaultValue
+
+    except error.PyAsn1Error:
+        return False
+
+
 class SequenceEncoder(AbstractItemEncoder):
     omitEmptyOptionals = False
 
@@ -609,7 +622,7 @@ class SequenceEncoder(AbstractItemEncoder):
                 # a Python value may denote the default in another form
                 # (bytes for text, None for NULL, a mapping for a record)
                 if namedType.isDefaulted and (
-                        component == namedType.asn1Object or
+                        _equalsDefault(component, namedType.asn1Object) or
                         encodeFun(component, namedType.asn1Object, **options) ==
                         encodeFun(namedType.asn1Object, **options)):
                     if LOG:
